@@ -27,6 +27,7 @@ const (
 	opSwap        = "swapped"      // proper frame of the SECOND oldest pending request first
 	opWrongID     = "wrong-id"     // answer of the oldest with correlation id + 1000
 	opStaleID     = "stale-id"     // answer of the oldest with the id of an already answered request
+	opReplay      = "replay"       // an extra frame carrying the id of an already answered request; the oldest stays pending and is answered properly afterwards
 	opTruncHdr    = "trunc-hdr"    // 1-7 bytes of the frame, then close
 	opTruncBody   = "trunc-body"   // header and part of the body, then close
 	opTruncSilent = "trunc-silent" // header and part of the body, then silence
@@ -37,7 +38,7 @@ const (
 	opSilence     = "silence"      // never answer again on this connection
 )
 
-var brFaultOps = []string{opSwap, opWrongID, opStaleID, opTruncHdr, opTruncBody, opTruncSilent, opShortLen, opOversize, opBadTag, opClose, opSilence}
+var brFaultOps = []string{opSwap, opWrongID, opStaleID, opReplay, opTruncHdr, opTruncBody, opTruncSilent, opShortLen, opOversize, opBadTag, opClose, opSilence}
 
 func brIsSilenceClass(op string) bool {
 	return op == opSilence || op == opTruncSilent || op == opSilence+"-resume" || op == opTruncSilent+"-resume"
@@ -481,6 +482,20 @@ func (s *rawServer) responder(c *srvConn) {
 				b = b[:s.hdrLen(oldest)]
 			}
 			s.take(c, 0, false, f)
+			if !s.write(c, b) {
+				return
+			}
+		case opReplay:
+			corr := oldest.Corr - 1
+			if lastAnswered != nil {
+				corr = lastAnswered.Corr
+			}
+			s.noteExecuted(op)
+			s.setTrouble(c, op)
+			b, f := s.buildFrame(c, oldest, op, corr, -1, 0)
+			s.mu.Lock()
+			f.Seq = sarama.VerifNextSeq()
+			s.mu.Unlock()
 			if !s.write(c, b) {
 				return
 			}
